@@ -529,6 +529,10 @@ def check_final(p, req, seg):
 
 
 def oracle(req, impl):
+    # polynomials at the parser's exponent limit (65 537 coefficients): exact evaluation at such degrees is out
+    # of reach of the rational oracle; these requests are decided by the bit-for-bit correspondence alone
+    if len(req) > 20000:
+        return None
     try:
         r = parse_request(req)
     except Exception as e:            # a malformed corpus line is a framework error, not a finding
